@@ -217,7 +217,14 @@ func (l *VLink) Latency() uint16                  { return l.Lat }
 func (l *VLink) AddMeasuredLatency(time.Duration) {}
 func (l *VLink) BytesIn() uint64                  { return 0 }
 func (l *VLink) BytesOut() uint64                 { return l.out }
-func (l *VLink) IsClosing() bool                  { return l.Closing }
+func (l *VLink) IsClosing() bool {
+	// A schedule point: forwarding code asks a link whether it is closing between
+	// picking it and using it.
+	if l.Owner != nil {
+		l.Owner.Gate.Pass("link.IsClosing")
+	}
+	return l.Closing
+}
 func (l *VLink) Close(func())                     { l.Closing = true }
 func (l *VLink) FlowControlIndicator() frame.FlowControlFlag {
 	return frame.FlowControlFlagIncreaseFlow
